@@ -12,6 +12,7 @@ import (
 	"github.com/jhump/protoreflect/desc"
 	"github.com/jhump/protoreflect/desc/protoparse"
 	"github.com/jhump/protoreflect/dynamic"
+	rw "google.golang.org/protobuf/encoding/protowire"
 )
 
 // C11, Protobuf half: generic.Value.MarshalTo on descriptor pairs derived from one generated schema by deleting /
@@ -31,6 +32,7 @@ type pFld struct {
 	Msg  *pMsg
 	Rep  bool
 	MapK string // map key type ("" = not a map)
+	NoPack bool // repeated numeric scalar declared [packed = false]
 	ent  int    // index of the synthesized entry message in the emitted table
 }
 
@@ -88,6 +90,7 @@ func (g *pgen) genField(m *pMsg, num int, depth int) *pFld {
 	case k == 6:
 		f.Kind = sc()
 		f.Rep = true
+		f.NoPack = r.chance(30) && c11IsNum(f.Kind)
 	case k == 7:
 		f.Msg = sub()
 		f.Rep = true
@@ -135,7 +138,7 @@ func (g *pgen) variant(m *pMsg, memo map[*pMsg]*pMsg, depth int) *pMsg {
 		if r.chance(25) {
 			continue
 		}
-		nf := &pFld{Num: f.Num, Name: fmt.Sprintf("f%sx%d", strings.ToLower(n.Name), f.Num), Kind: f.Kind, Rep: f.Rep, MapK: f.MapK}
+		nf := &pFld{Num: f.Num, Name: fmt.Sprintf("f%sx%d", strings.ToLower(n.Name), f.Num), Kind: f.Kind, Rep: f.Rep, MapK: f.MapK, NoPack: f.NoPack}
 		if f.Msg != nil {
 			nf.Msg = g.variant(f.Msg, memo, depth+1)
 		}
@@ -167,7 +170,11 @@ func (g *pgen) protoText(roots ...*pMsg) string {
 	for _, m := range g.msgs {
 		sb.WriteString("message " + m.Name + " {\n")
 		for _, f := range m.Fields {
-			sb.WriteString(fmt.Sprintf("  %s %s = %d;\n", f.typeName(), f.Name, f.Num))
+			opt := ""
+			if f.NoPack {
+				opt = " [packed = false]"
+			}
+			sb.WriteString(fmt.Sprintf("  %s %s = %d%s;\n", f.typeName(), f.Name, f.Num, opt))
 		}
 		sb.WriteString("}\n")
 	}
@@ -212,6 +219,129 @@ func (g *pgen) tableFields() []string {
 		out = append(out, e...)
 	}
 	return out
+}
+
+func c11IsNum(kind string) bool { return kind != "string" && kind != "bytes" && kind != "" }
+
+func c11Wire(kind string) rw.Type {
+	switch kind {
+	case "double", "fixed64", "sfixed64":
+		return rw.Fixed64Type
+	case "float", "fixed32", "sfixed32":
+		return rw.Fixed32Type
+	}
+	return rw.VarintType
+}
+
+// re-encode repeated numeric scalar fields in the ALTERNATE legal wire form (a packed record as one record per element, a
+// run of unpacked records as one packed record), at every nesting level; lengths of the enclosing messages are recomputed.
+// Every parser must accept both forms whatever the declaration says.
+func (g *pgen) altForm(m *pMsg, b []byte, pct int) ([]byte, bool) {
+	var out []byte
+	changed := false
+	byNum := map[int]*pFld{}
+	for _, f := range m.Fields {
+		byNum[f.Num] = f
+	}
+	for len(b) > 0 {
+		num, wt, n := rw.ConsumeTag(b)
+		if n < 0 {
+			return nil, false
+		}
+		vn := rw.ConsumeFieldValue(num, wt, b[n:])
+		if vn < 0 {
+			return nil, false
+		}
+		rec, val := b[:n+vn], b[n:n+vn]
+		b = b[n+vn:]
+		f := byNum[int(num)]
+		switch {
+		case f == nil:
+			out = append(out, rec...)
+		case f.Rep && f.Msg == nil && f.MapK == "" && c11IsNum(f.Kind) && wt == rw.BytesType:
+			payload, _ := rw.ConsumeBytes(val)
+			if len(payload) == 0 || !g.r.chance(pct) {
+				out = append(out, rec...)
+				continue
+			}
+			ewt := c11Wire(f.Kind)
+			for p := payload; len(p) > 0; {
+				en := rw.ConsumeFieldValue(num, ewt, p)
+				if en < 0 {
+					return nil, false
+				}
+				out = rw.AppendTag(out, num, ewt)
+				out = append(out, p[:en]...)
+				p = p[en:]
+			}
+			changed = true
+		case f.Rep && f.Msg == nil && f.MapK == "" && c11IsNum(f.Kind) && wt == c11Wire(f.Kind):
+			if !g.r.chance(pct) {
+				out = append(out, rec...)
+				continue
+			}
+			// gather the run of records of this field into one packed record
+			packed := append([]byte(nil), val...)
+			for len(b) > 0 {
+				num2, wt2, n2 := rw.ConsumeTag(b)
+				if n2 < 0 || num2 != num || wt2 != wt {
+					break
+				}
+				vn2 := rw.ConsumeFieldValue(num2, wt2, b[n2:])
+				if vn2 < 0 {
+					return nil, false
+				}
+				packed = append(packed, b[n2:n2+vn2]...)
+				b = b[n2+vn2:]
+			}
+			out = rw.AppendTag(out, num, rw.BytesType)
+			out = rw.AppendBytes(out, packed)
+			changed = true
+		case f.Msg != nil && wt == rw.BytesType && f.MapK == "":
+			payload, _ := rw.ConsumeBytes(val)
+			np, ch := g.altForm(f.Msg, payload, pct)
+			if np == nil && len(payload) > 0 {
+				return nil, false
+			}
+			changed = changed || ch
+			out = rw.AppendTag(out, num, wt)
+			out = rw.AppendBytes(out, np)
+		case f.Msg != nil && wt == rw.BytesType && f.MapK != "":
+			payload, _ := rw.ConsumeBytes(val)
+			var entry []byte
+			for p := payload; len(p) > 0; {
+				en, ewt, tn := rw.ConsumeTag(p)
+				if tn < 0 {
+					return nil, false
+				}
+				evn := rw.ConsumeFieldValue(en, ewt, p[tn:])
+				if evn < 0 {
+					return nil, false
+				}
+				if en == 2 && ewt == rw.BytesType {
+					vp, _ := rw.ConsumeBytes(p[tn : tn+evn])
+					nv, ch := g.altForm(f.Msg, vp, pct)
+					if nv == nil && len(vp) > 0 {
+						return nil, false
+					}
+					changed = changed || ch
+					entry = rw.AppendTag(entry, en, ewt)
+					entry = rw.AppendBytes(entry, nv)
+				} else {
+					entry = append(entry, p[:tn+evn]...)
+				}
+				p = p[tn+evn:]
+			}
+			out = rw.AppendTag(out, num, wt)
+			out = rw.AppendBytes(out, entry)
+		default:
+			out = append(out, rec...)
+		}
+	}
+	if out == nil {
+		out = []byte{}
+	}
+	return out, changed
 }
 
 func (g *pgen) scalarValue(kind string) interface{} {
@@ -413,6 +543,11 @@ func genC11Proto(r *rng, n int) {
 			buf, err := dm.Marshal()
 			if err != nil {
 				die("reference marshal: %v", err)
+			}
+			if r.chance(40) { // the alternate wire form of repeated numeric scalars (legal input, whatever the declaration)
+				if alt, ch := g.altForm(vShape, buf, 70); alt != nil && ch {
+					buf = alt
+				}
 			}
 			bits := r.intn(2)
 			opts := &pgeneric.Options{DisallowUnknown: bits&1 != 0, UseNativeSkip: r.chance(20)}
